@@ -945,11 +945,8 @@ class RTCSctpTransport(AsyncIOEventEmitter):
 
         # consolidate misordered entries
         self._sack_misordered.add(tsn)
-        for tsn in sorted(self._sack_misordered):
-            if tsn == tsn_plus_one(self._last_received_tsn):
-                self._last_received_tsn = tsn
-            else:
-                break
+        while tsn_plus_one(self._last_received_tsn) in self._sack_misordered:
+            self._last_received_tsn = tsn_plus_one(self._last_received_tsn)
 
         # filter out obsolete entries
         def is_obsolete(x: int) -> bool:
@@ -1156,11 +1153,8 @@ class RTCSctpTransport(AsyncIOEventEmitter):
         # advance cumulative TSN
         self._last_received_tsn = chunk.cumulative_tsn
         self._sack_misordered = set(filter(is_obsolete, self._sack_misordered))
-        for tsn in sorted(self._sack_misordered):
-            if tsn == tsn_plus_one(self._last_received_tsn):
-                self._last_received_tsn = tsn
-            else:
-                break
+        while tsn_plus_one(self._last_received_tsn) in self._sack_misordered:
+            self._last_received_tsn = tsn_plus_one(self._last_received_tsn)
 
         # filter out obsolete entries
         self._sack_duplicates = list(filter(is_obsolete, self._sack_duplicates))
